@@ -1091,6 +1091,11 @@ func (x *Exec) locsOfObject(ctx *SpecCtx, obj *Term, t types.Type, p PtrV) []Loc
 			}
 		}
 		for _, hr := range x.elemHeaps(u.Elem()) {
+			if p.Off.IsLit() && p.Off.Val.Sign() == 0 {
+				// the whole array object (it has no elements outside 0..N-1)
+				out = append(out, Loc{Heap: hr.name, Sort: SArr(SInt, SArr(SInt, hr.es)), Obj: obj})
+				continue
+			}
 			out = append(out, Loc{Heap: hr.name, Sort: SArr(SInt, SArr(SInt, hr.es)), Obj: obj, Lo: p.Off, Hi: x.b.Add(p.Off, x.b.Int(u.Len()))})
 		}
 		return out
